@@ -3,6 +3,7 @@ package main
 import (
 	"6502profiler/assembler"
 	"6502profiler/caseexec"
+	"6502profiler/commands"
 	"6502profiler/cpu"
 	"6502profiler/emuconfig"
 	"6502profiler/memory"
@@ -12,6 +13,7 @@ import (
 	"os"
 	"os/exec"
 	"path/filepath"
+	"regexp"
 	"strings"
 	"verifharness/internal/rng"
 )
@@ -165,7 +167,40 @@ func verdictCase(r *rng.R, dir string) string {
 		ph = memory.NewPlaceholderWrapper(c.Mem, 0x7F00)
 		c.Mem = ph.Wrapper
 	}
-	crashed := protect(func() { err = tc.Execute(c, fa, dir, nil, ph, "id") })
+	crashed := false
+	if r.Chance(40) {
+		// through the real `verify` command: configuration file, case file, this binary as the assembler
+		count("verdict.verifycommand")
+		self, e := os.Executable()
+		if e != nil {
+			panic(e)
+		}
+		vcfg := emuconfig.DefaultConfig()
+		vcfg.AcmeBinary, vcfg.AcmeTestDir, vcfg.AcmeSrcDir, vcfg.AcmeBinDir = self, dir, dir, filepath.Join(dir, "bin")
+		cfgDir, e := os.MkdirTemp("", "verif-verdictcfg")
+		if e != nil {
+			panic(e)
+		}
+		defer os.RemoveAll(cfgDir)
+		cfgFile := filepath.Join(cfgDir, "config.json")
+		if e := vcfg.Save(cfgFile); e != nil {
+			panic(e)
+		}
+		src := "; driver\n;hex " + hexOf(code) + "\n"
+		if bin == "asmfail" {
+			src = "; driver\n;fail\n"
+		}
+		writeFile(dir, "drv.a", []byte(src))
+		writeFile(dir, "t.json", []byte(`{"Name":"t","TestDriverSource":"drv.a","TestScript":"case.lua"}`))
+		args := []string{"-c", cfgFile, "-t", "t"}
+		if strings.HasPrefix(bin, "trap") {
+			args = append(args, "-trapaddr", "32512")
+		}
+		_, crashed = captureStdout(func() { err = commands.VerifyCommand(args) })
+		os.Remove(filepath.Join(dir, "t.json"))
+	} else {
+		crashed = protect(func() { err = tc.Execute(c, fa, dir, nil, ph, "id") })
+	}
 	res := "ok"
 	if err != nil {
 		res = "fail"
@@ -181,6 +216,85 @@ func verdictCase(r *rng.R, dir string) string {
 	return fmt.Sprintf("verdict %s %s %s %d %s => %s", bin, ni, strings.Join(asserts, ","), arrangeErrAt, sb2, res)
 }
 
+// fakeAssemblerMain: this binary in the role of the external assembler (configured as AcmeBinary).  A "source file"
+// written by the generator holds the program as hex after `;hex `; a source containing `;fail` does not assemble.
+func fakeAssemblerMain(args []string) {
+	out, src := "", args[len(args)-1]
+	for i := 0; i+1 < len(args); i++ {
+		if args[i] == "-o" {
+			out = args[i+1]
+		}
+	}
+	data, err := os.ReadFile(src)
+	if err != nil || out == "" {
+		fmt.Println("fake assembler: cannot read source")
+		os.Exit(1)
+	}
+	text := string(data)
+	if strings.Contains(text, ";fail") {
+		fmt.Println("fake assembler: error in line 1")
+		os.Exit(1)
+	}
+	i := strings.Index(text, ";hex ")
+	if i < 0 {
+		fmt.Println("fake assembler: no program")
+		os.Exit(1)
+	}
+	hx := strings.TrimSpace(strings.SplitN(text[i+5:], "\n", 2)[0])
+	bin := []byte{}
+	for k := 0; k+1 < len(hx); k += 2 {
+		var b uint8
+		fmt.Sscanf(hx[k:k+2], "%02x", &b)
+		bin = append(bin, b)
+	}
+	os.MkdirAll(filepath.Dir(out), 0700)
+	if err := os.WriteFile(out, bin, 0600); err != nil {
+		fmt.Println("fake assembler: cannot write output")
+		os.Exit(1)
+	}
+}
+
+// suiteViaCommand: the same suite through the real commands.VerifyAllCommand with a configuration file whose
+// assembler binary is this program (see fakeAssemblerMain)
+func suiteViaCommand(sub string, verbose bool) string {
+	self, err := os.Executable()
+	if err != nil {
+		panic(err)
+	}
+	cfg := emuconfig.DefaultConfig()
+	cfg.AcmeBinary = self
+	cfg.AcmeTestDir = sub
+	cfg.AcmeSrcDir = sub
+	cfg.AcmeBinDir = filepath.Join(sub, "bin")
+	os.MkdirAll(cfg.AcmeBinDir, 0700)
+	cfgDir, err := os.MkdirTemp("", "verif-suitecfg")
+	if err != nil {
+		panic(err)
+	}
+	defer os.RemoveAll(cfgDir)
+	cfgFile := filepath.Join(cfgDir, "config.json")
+	if err := cfg.Save(cfgFile); err != nil {
+		panic(err)
+	}
+	args := []string{"-c", cfgFile}
+	if verbose {
+		args = append(args, "-verbose")
+	}
+	var cerr error
+	outb, panicked := captureStdout(func() { cerr = commands.VerifyAllCommand(args) })
+	if panicked {
+		return "hostcrash"
+	}
+	if cerr != nil {
+		return "fail"
+	}
+	m := regexp.MustCompile(`(\d+) tests successfully executed`).FindStringSubmatch(string(outb))
+	if m == nil {
+		return "ok ?"
+	}
+	return "ok " + m[1]
+}
+
 // suiteCase: verifyall through CaseExec and IterateTestCases: count and overall result
 func suiteCase(r *rng.R, dir string) string {
 	sub := filepath.Join(dir, "suite")
@@ -188,9 +302,14 @@ func suiteCase(r *rng.R, dir string) string {
 	os.MkdirAll(sub, 0700)
 	n := 1 + r.Intn(5)
 	verdicts := []string{}
+	viaCmd := r.Chance(50)
 	fa := &fakeAsm{bins: map[string]string{}}
 	fa.bins["ok.a"] = writeFile(sub, "ok.bin", prg(0x0800, 0xE8, 0x00))
 	fa.bins["bad.a"] = writeFile(sub, "bad.bin", prg(0x0800, 0x02))
+	// the "sources" for the fake assembler executable (command path)
+	writeFile(sub, "ok.a", []byte("; driver\n;hex 0008e800\n"))
+	writeFile(sub, "bad.a", []byte("; driver\n;hex 000802\n"))
+	writeFile(sub, "noasm.a", []byte("; driver\n;fail\n"))
 	writeFile(sub, "pass.lua", []byte("function arrange() end\nfunction assert() return true end\n"))
 	writeFile(sub, "fail.lua", []byte("function arrange() end\nfunction assert() return false, 'no' end\n"))
 	repo, _ := verifier.NewCaseRepo(sub, "")
@@ -205,6 +324,9 @@ func suiteCase(r *rng.R, dir string) string {
 		case k == 1:
 			tc.TestDriverSource = "bad.a"
 			v = "0"
+		case k == 2 && viaCmd:
+			tc.TestDriverSource = "noasm.a"
+			v = "0"
 		}
 		verdicts = append(verdicts, v)
 		data := fmt.Sprintf("{\"Name\":%q,\"TestDriverSource\":%q,\"TestScript\":%q}", tc.Name, tc.TestDriverSource, tc.TestScript)
@@ -215,13 +337,19 @@ func suiteCase(r *rng.R, dir string) string {
 		}
 		writeFile(sub, fname, []byte(data))
 	}
-	cfg := emuconfig.DefaultConfig()
-	ce := caseexec.NewCaseExec(cfg, fakeAsmProv{fa}, repo, false)
-	ce.Outf = io.Discard
-	cnt, err := repo.IterateTestCases(ce.ExecuteCase)
-	res := fmt.Sprintf("ok %d", cnt)
-	if err != nil {
-		res = "fail"
+	res := ""
+	if viaCmd {
+		res = suiteViaCommand(sub, r.Bool())
+		count("suite.verifyallcommand")
+	} else {
+		cfg := emuconfig.DefaultConfig()
+		ce := caseexec.NewCaseExec(cfg, fakeAsmProv{fa}, repo, false)
+		ce.Outf = io.Discard
+		cnt, err := repo.IterateTestCases(ce.ExecuteCase)
+		res = fmt.Sprintf("ok %d", cnt)
+		if err != nil {
+			res = "fail"
+		}
 	}
 	count("suite")
 	return fmt.Sprintf("suite %s => %s", strings.Join(verdicts, ","), res)
